@@ -49,10 +49,25 @@ CORPUS = os.path.join(C.VERIF, "corpus", "lexical", "cases.json")
 # ----------------------------------------------------------------------------------------------
 
 
+_ENC = {}
+_HEX = {}
+
+
 def enc(s):
     if not isinstance(s, str):
         return "n"
-    return "u" + "".join("%06x" % ord(ch) for ch in s)
+    r = _ENC.get(s)
+    if r is None:
+        parts = []
+        for ch in s:
+            h = _HEX.get(ch)
+            if h is None:
+                h = _HEX[ch] = "%06x" % ord(ch)
+            parts.append(h)
+        r = "u" + "".join(parts)
+        if len(s) <= 32:
+            _ENC[s] = r
+    return r
 
 
 # ----------------------------------------------------------------------------------------------
@@ -695,6 +710,7 @@ def correspondence(ctx):
         if il != ml:
             dis.append({"input": {"type": c[0], "tag": c[1], "enums": list(c[2])[:8], "value": c[3]}, "model": ml, "impl": il, "level": "validate_value"})
     nval = len(cases)
+    impl_of = dict(zip(cases, impl_results))
 
     # 3. the modelled CPython primitives one level down, on the distinct values of the typed cases
     values = sorted({c[3] for c in typed if isinstance(c[3], str) and c[0].upper() in NUM_TYPES})
@@ -724,8 +740,8 @@ def correspondence(ctx):
     # 4. the predicates the theorems are about: Lean SPEC == Python SPEC, Lean narrow marks == Python's,
     #    and the theorem's shape itself on the implementation: accepted == (spec and not narrow) or deviation
     sub = [c for c in typed if isinstance(c[3], str) and c[0].upper() in SPEC]
-    if ctx.tier != "thorough" and len(sub) > 250000:
-        sub = ctx.rng.sample(sub, 250000)
+    if ctx.tier != "thorough" and len(sub) > 70000:
+        sub = ctx.rng.sample(sub, 70000)
     lines = []
     for (t, tag, es, v) in sub:
         lines.append(f"lex.s {SPEC[t.upper()][0]} {1 if tag == '16' else 0} {enc(v)}")
@@ -741,7 +757,7 @@ def correspondence(ctx):
         if ps == "1" and ln_ != pm:  # marks are meaningful on the lexical space only
             dis.append({"input": {"narrow-marks": t, "value": v}, "model": ln_, "impl": pm, "level": "marks"})
         if tag != "16" and v != "" and t.upper() != "LENGTH":
-            il = call_impl(t, tag, es, v)
+            il = impl_of[(t, tag, es, v)]
             shape = (ls == "1" and ln_ == "n=") or ld == "1"
             if shape != (il == "ok"):
                 dis.append({"input": {"theorem-shape": t, "value": v}, "model": f"spec={ls} {ln_} dev={ld}", "impl": il, "level": "theorem-shape"})
